@@ -315,13 +315,22 @@ namespace Pistache
 
     bool match_double(double* val, StreamCursor& cursor)
     {
-        // @Todo: strtod does not support a length argument
+        // strtod() does not support a length argument and skips leading white
+        // space (CR and LF included): run it on a bounded, terminated copy of
+        // what is left in the buffer instead of on the buffer itself
+        char text[64];
+        size_t len = cursor.remaining();
+        if (len > sizeof(text) - 1)
+            len = sizeof(text) - 1;
+        memcpy(text, cursor.offset(), len);
+        text[len] = '\0';
+
         char* end;
-        *val = strtod(cursor.offset(), &end);
-        if (end == cursor.offset())
+        *val = strtod(text, &end);
+        if (end == text)
             return false;
 
-        cursor.advance(static_cast<ptrdiff_t>(end - cursor.offset()));
+        cursor.advance(static_cast<size_t>(end - text));
         return true;
     }
 
